@@ -136,7 +136,7 @@ func c18(r *report.Run) {
 	}
 	xss := collect(g, gen.NT{T: gen.TIntArr, Elem: gen.TNone}, nx)
 	for _, e := range g.Table(gen.NT{T: gen.TIntArr, Elem: gen.TNone}, nx+1) {
-		if e.R.Op == "builtin" && e.Kids[0].Size() == 1 && (r.Tier == "thorough" || len(gen.Vars(e)) == 1) {
+		if e.R.Op == "builtin" && e.Kids[0].Size() == 1 && (r.Tier == "thorough" || len(gen.Vars(e)) == 1 && strings.Contains(e.String(), "#")) {
 			xss = append(xss, e) // filter/map over a member with a 3-node closure
 		}
 	}
@@ -144,6 +144,16 @@ func c18(r *report.Run) {
 	hashArr := &gen.Expr{R: &gen.Rule{Op: "nested-hash", Arg: "#", Out: gen.TIntArr, Atom: true, Fmt: "#"}}
 	xss = append(xss, hashArr)
 	ps := collect(g, gen.NT{T: gen.TBool, Elem: gen.TInt}, np)
+	if r.Tier == "quick" {
+		// quick: predicates that look at the element (or are tiny); the thorough tier takes all of them
+		var keep []*gen.Expr
+		for _, p := range ps {
+			if p.Size() <= 3 || strings.Contains(p.String(), "#") {
+				keep = append(keep, p)
+			}
+		}
+		ps = keep
+	}
 	// float arrays (with a NaN element) and predicates over a float '#'
 	fxs := collect(g, gen.NT{T: gen.TFloatArr, Elem: gen.TNone}, 1)
 	fps := collect(g, gen.NT{T: gen.TBool, Elem: gen.TFloat}, np)
